@@ -136,6 +136,10 @@ fn collect_aliases(s: &J, out: &mut Vec<(String, String)>) {
 thread_local! {
     static SHAPE: RefCell<Option<SV>> = const { RefCell::new(None) };
 }
+/// set the shape the next `Shaped::deserialize` calls on this thread follow
+pub fn set_shape(sv: Option<SV>) {
+    SHAPE.with(|sh| *sh.borrow_mut() = sv);
+}
 #[derive(Debug, Clone)]
 pub struct Shaped(pub SV);
 impl Serialize for Shaped {
@@ -155,21 +159,21 @@ impl<'de> Deserialize<'de> for Shaped {
 // ---------------------------------------------------------------------------------------------
 // one subject through all routes
 // ---------------------------------------------------------------------------------------------
-fn ser_result(r: Result<Result<(usize, Vec<u8>), String>, String>) -> J {
+pub fn ser_result(r: Result<Result<(usize, Vec<u8>), String>, String>) -> J {
     match r {
         Ok(Ok((n, w))) => json!({"ok":true,"panic":false,"wire":bytes_j(&w),"n":small(n),"err":""}),
         Ok(Err(e)) => json!({"ok":false,"panic":false,"wire":[],"n":0,"err":e}),
         Err(p) => json!({"ok":false,"panic":true,"wire":[],"n":0,"err":p}),
     }
 }
-fn back_result(r: Result<Result<(J, usize), String>, String>) -> J {
+pub fn back_result(r: Result<Result<(J, usize), String>, String>) -> J {
     match r {
         Ok(Ok((t, c))) => json!({"ok":true,"panic":false,"back":t,"consumed":small(c),"err":""}),
         Ok(Err(e)) => json!({"ok":false,"panic":false,"back":undef_term(),"consumed":0,"err":e}),
         Err(p) => json!({"ok":false,"panic":true,"back":undef_term(),"consumed":0,"err":p}),
     }
 }
-fn gen_result(r: Result<Result<(apache_avro::types::Value, usize), String>, String>) -> J {
+pub fn gen_result(r: Result<Result<(apache_avro::types::Value, usize), String>, String>) -> J {
     match r {
         Ok(Ok((v, c))) => json!({"ok":true,"panic":false,"v":value_to_vterm(&v),"consumed":small(c),"err":""}),
         Ok(Err(e)) => json!({"ok":false,"panic":false,"v":none_term(),"consumed":0,"err":e}),
@@ -178,10 +182,14 @@ fn gen_result(r: Result<Result<(apache_avro::types::Value, usize), String>, Stri
 }
 
 /// `project`: value -> the term of what it serializes as (schema-guided re-tagging included)
-fn run_subject<T: Serialize + DeserializeOwned>(value: &T, schema: &Schema, project: &dyn Fn(&T) -> J) -> (J, J, J) {
+pub fn run_subject<T: Serialize + DeserializeOwned>(value: &T, schema: &Schema, project: &dyn Fn(&T) -> J) -> (J, J, J) {
+    run_subject_with(value, schema, project, &TARGETS)
+}
+
+pub fn run_subject_with<T: Serialize + DeserializeOwned>(value: &T, schema: &Schema, project: &dyn Fn(&T) -> J, targets: &[usize]) -> (J, J, J) {
     let mut runs = vec![];
     let mut first_wire: Option<Vec<u8>> = None;
-    for t in TARGETS {
+    for &t in targets {
         let ser = ser_result(guarded(AssertUnwindSafe(|| {
             let w = if t == 0 {
                 GenericDatumWriter::builder(schema).human_readable(false).build()
